@@ -3,6 +3,8 @@ pub mod c01_net;
 pub mod c02;
 pub mod c02_net;
 pub mod c07;
+pub mod c08;
+pub mod c08_net;
 pub mod routerkit;
 pub mod c11;
 pub mod c12;
@@ -59,6 +61,19 @@ pub fn all() -> Vec<PropDef> {
             ],
             run: c07::run,
             replay: c07::replay,
+            child: None,
+        },
+        PropDef {
+            id: "C08",
+            level: "exploration",
+            rule: c08::RULE,
+            assumptions: &[
+                "u128/i128 and the half floats are exercised on the bulk-only clauses; the byte-identity and cross-decoding clauses use the element types with a serde path in this build",
+                "Complex bodies use the crate's own serde form (body_beve(&Vec<Complex<T>>)), as the repository's test does",
+                "borrowing is observed through the address of the slice handed to the route's closure",
+            ],
+            run: c08::run,
+            replay: c08::replay,
             child: None,
         },
         PropDef {
